@@ -248,7 +248,7 @@ func c14Maps(c *core.Ctx) {
 			}
 			n++
 			who := core.FuncName(core.Outer(s.Caller))
-			c.Check("AccountData-encoded-by@"+who, "who-may-call", allowed[who], s.Instr.Pos(), "%s encodes a value containing AccountData; only the store's block commit may (its bytes are in map order and must never reach a hash)", who)
+			c.Check("AccountData-encoded-by@"+who, "who-may-call", ownedBy(c, s.Caller, allowed, 0), s.Instr.Pos(), "%s encodes a value containing AccountData; only the store's block commit may (its bytes are in map order and must never reach a hash)", who)
 		}
 		c.Floor("AccountData-encode-sites", n, 1)
 	})
